@@ -67,6 +67,16 @@ CHECKS = {
              'underflowing reals and in-band null sentinels are not judged; #+1 is read as #1.',
         technique='exhaustive enumeration of all short strings over an alphabet on the real scanner vs grammar recogniser',
         ref='3/C09'),
+    'C12': dict(
+        text='Exhaustive configuration enumeration around a reference configuration: for every schema of the generated family and selected (thorough: all) shipped '
+             'schemas and each of exp2cxx, exp2python, exppp, schema_scanner, every one-axis deviation over {ASLR off/on, heap shift 0/16/4096/1 MiB via an '
+             'LD_PRELOAD shim (exactly reproducible with ASLR off), cwd plain/deep/with space, input path absolute/relative/symlink, environment +64 KiB, LC_ALL '
+             'C/C.utf8/POSIX, run order first/after another schema/repeated in the same directory} plus the full ASLR x shift grid (thorough: products and ASLR-on '
+             'repetitions); the output trees are compared byte for byte with the reference run, and the exit status must agree.',
+        note='Trusted: sha256. Only the locales C, C.utf8, POSIX exist here (no comma-decimal locale); stack/mmap address dependence is reached only through ASLR on, '
+             'which cannot be replayed exactly; the scanner\'s quoted input path is normalised.',
+        technique='exhaustive enumeration of environment configurations (one-axis deviations + layout grid) on the real tools + differential oracle',
+        ref='3/C12'),
     'C13': dict(
         text='Explicit-state breadth-first search over operation histories on the real InstMgr (in-process C++ explorer, ASan+UBSan build): 36 symbolic '
              'operations (Append new/explicit/duplicate id/same instance/released instance, Delete by node and by instance first/middle/last, ChangeState x 4, '
